@@ -142,7 +142,50 @@ func c17Covered(l *ast.ListNode) bool {
 					return false
 				}
 			}
+		case *ast.SwitchNode:
+			// a default case prints as "{case }" (W1): only switches without one are read back
+			for _, c := range n.Cases {
+				if len(c.Values) == 0 {
+					return false
+				}
+				if b, ok := c.Body.(*ast.ListNode); !ok || !c17Covered(b) {
+					return false
+				}
+			}
+		case *ast.CallNode:
+			if i := strings.Index(n.Name, "."); i <= 0 {
+				return false
+			}
+			if n.Data != nil {
+				if n.AllData || !c17PlainAttr(n.Data.String()) {
+					return false
+				}
+			}
+			for _, p := range n.Params {
+				if pc, ok := p.(*ast.CallParamContentNode); ok {
+					if b, ok := pc.Content.(*ast.ListNode); !ok || !c17Covered(b) {
+						return false
+					}
+				}
+			}
+		case *ast.CssNode:
+			if strings.ContainsAny(n.Suffix, ",{}") || strings.TrimSpace(n.Suffix) != n.Suffix || n.Suffix == "" {
+				return false
+			}
 		default:
+			return false
+		}
+	}
+	return true
+}
+
+// c17PlainAttr: the printed expression can stand between double quotes unescaped (Spec/CmdSyntax.v plain)
+func c17PlainAttr(s string) bool {
+	if s == "all" {
+		return false
+	}
+	for i := 0; i < len(s); i++ {
+		if c := s[i]; c < 32 || c >= 127 || c == '"' || c == '\\' {
 			return false
 		}
 	}
